@@ -173,6 +173,24 @@ def _writers(ctx, eng):
         dumps = [n for n in ast.walk(fn_) if isinstance(n, ast.Call) and ast.unparse(n.func) == 'json.dump']
         okdump = len(dumps) == 1 and ast.unparse(dumps[0].args[0]) in ('content', 'content.freeze()')
         out.append(structural('writers/%s.%s.dumps-merged-content' % (f, w), PROP, okdump, 'json.dump(content, ...) once'))
+    # the assumed contract of json.dump ("serialises every dictionary of lists of float64 - non-finite values included - completely, or not
+    # at all") only holds for the formatting options: an option that makes the serialiser REJECT representable data (allow_nan=False,
+    # default=, cls=, skipkeys, check_circular) turns a write of such data into an exception raised AFTER open(path, 'w') has truncated the
+    # file, and every sibling key of that file is lost.  Stated for EVERY json.dump call of the eight repository modules.
+    ndump = 0
+    for f in FILES:
+        mod = tree.module(R + f)
+        for fn_ in [n for n in mod.body if isinstance(n, ast.FunctionDef)]:
+            k_ = 0
+            for c in sorted([n for n in ast.walk(fn_) if isinstance(n, ast.Call) and ast.unparse(n.func) in ('json.dump', 'json.dumps', 'dump')],
+                            key=lambda n: (n.lineno, n.col_offset)):
+                ndump += 1
+                kws = sorted(k.arg or '**' for k in c.keywords)
+                ok = all(k in ('indent', 'sort_keys', 'separators') for k in kws) and len(c.args) == 2
+                out.append(structural('writers/%s.%s.json-dump#%d.total-on-float64' % (f, fn_.name, k_), PROP, ok,
+                                      'json.dump called with (obj, file) and formatting options only; found: %s' % ast.unparse(c)[:120]))
+                k_ += 1
+    out.append(structural('writers/json-dump-calls-found', PROP, ndump >= 9, '%d json.dump calls in the repository modules' % ndump))
     return out
 
 
@@ -384,6 +402,56 @@ for trial in range(%d):
     finally:
         shutil.rmtree(d, ignore_errors=True)
     if len(bad) > 6: break
+# NON-FINITE float64 values (NaN, +inf, -inf are float64 values like any other): a finite key first, then a SIBLING key of the same file with
+# non-finite entries; both must read back afterwards (the second with NaN == NaN), and the first must be unharmed whatever the second write did
+nan, inf = float("nan"), float("inf")
+def eqnan(a, b):
+    a, b = np.asarray(a, dtype=float), np.asarray(b, dtype=float)
+    return a.shape == b.shape and bool(np.all((a == b) | (np.isnan(a) & np.isnan(b))))
+for fam in sorted(FAM):
+    for special in (nan, inf, -inf):
+        d = tempfile.mkdtemp(prefix="verif_c06_")
+        try:
+            uni = universe(fam)
+            k1 = uni[0]; k2 = [k for k in uni[1:] if repr(k[0]) == repr(k1[0]) or fam.endswith("thermal_cx")][0]
+            v1, v2 = table(FAM[fam][3]), table(FAM[fam][3])
+            v2["rate"] = v2["rate"].copy(); v2["rate"].flat[rnd.randrange(v2["rate"].size)] = special
+            outcome = "accepted"
+            for k, v in ((k1, v1), (k2, v2)):
+                arg = {kk: (vv.copy() if hasattr(vv, "copy") else list(vv)) for kk, vv in v.items()}
+                if not fam.startswith("pec_"): arg["rates"] = arg.pop("rate")
+                try:
+                    FAM[fam][0](k, arg, d)
+                except Exception as e:
+                    outcome = type(e).__name__
+            cases += 1
+            try:
+                g1 = FAM[fam][1](k1, d)
+                if not same(g1, v1): bad.append({"family": fam, "non_finite_sibling": repr(special), "first_key": "different numbers", "second_write": outcome})
+            except Exception as e:
+                bad.append({"family": fam, "non_finite_sibling": repr(special), "first_key_unreadable": type(e).__name__, "second_write": outcome})
+            if outcome == "accepted":
+                cases += 1
+                try:
+                    g2 = FAM[fam][1](k2, d)
+                    if not all(eqnan(g2[f], v2[f]) for f in v2): bad.append({"family": fam, "non_finite_value": repr(special), "read_back": "different numbers"})
+                except Exception as e:
+                    bad.append({"family": fam, "non_finite_value": repr(special), "read_back": type(e).__name__})
+        finally:
+            shutil.rmtree(d, ignore_errors=True)
+for special in (nan, inf):
+    d = tempfile.mkdtemp(prefix="verif_c06_")
+    try:
+        R.add_wavelength(carbon, 1, (3, 2), 500.25, repository_path=d)
+        try: R.add_wavelength(carbon, 1, (4, 2), special, repository_path=d)
+        except Exception as e: pass
+        cases += 1
+        try:
+            if R.get_wavelength(carbon, 1, (3, 2), repository_path=d) != 500.25: bad.append({"family": "wavelength", "non_finite_sibling": repr(special), "first_key": "changed"})
+        except Exception as e:
+            bad.append({"family": "wavelength", "non_finite_sibling": repr(special), "first_key_unreadable": type(e).__name__})
+    finally:
+        shutil.rmtree(d, ignore_errors=True)
 home_after = set(os.listdir(os.path.expanduser("~/.cherab"))) if os.path.isdir(os.path.expanduser("~/.cherab")) else None
 if home_before != home_after:
     bad.append({"stray_files_in_default_repository": sorted((home_after or set()) ^ (home_before or set()))[:5]})
